@@ -337,6 +337,8 @@ static Plan gen_C07(uint64_t seed, Rng &r) {
             left -= chunk;
             if (r.chance(0.3)) p.ops.push_back(mk(OP_FLOOD, 1, {r.range(1, 5), base - 1, 0, (base - 1) & 1 ? wire::W_PROBE : wire::W_TRAIN, 1})); // byte-identical duplicates
             if (r.chance(0.3)) p.ops.push_back(mk(OP_PROBE, 1, {r.range(1500, 1600), r.range(1500, 1600), wire::W_PROBE, r.range(2000, 2010), r.range(2000, 2010), 0, 0, 0})); // for another station
+            if (r.chance(0.2)) { int64_t tw = 300 + r.range(0, 5); p.ops.push_back(mk(OP_PROBE, 1, {r.range(1610, 1650), r.range(1610, 1650), wire::W_TRAIN, tw, tw, 0, 0, 0})); } // for a station whose address differs from ours in one byte
+            if (r.chance(0.04)) p.ops.push_back(mk(OP_ATTR, 2, {0, (int64_t)(r.next() >> 1), 0x20000})); // the interface's hardware address changes mid-session
             if (r.chance(0.3) && k + 4 <= 300) { // distinct observations that share the Ethernet source (or the real source) with an earlier one
                 int64_t shared = 1700 + r.range(0, 5);
                 int extra = (int)r.range(2, 3);
@@ -372,7 +374,7 @@ static Plan gen_C08(uint64_t seed, Rng &r) {
             int64_t off;
             switch (r.below(4)) { case 0: off = r.pickl({0, 1, 0x7FFF, 0x8000, 0xFFFF}); break; case 1: off = (int64_t)(n.mtu - 34) * r.range(1, 3) + r.range(-1, 1); break; case 2: off = r.range(0, 300); break; default: off = r.range(0, 0xFFFF); break; }
             p.ops.push_back(mk(OP_QLT, (uint32_t)r.range(5, 80), {mapper, br, 0, r.chance(0.1) ? 0 : (int64_t)rnd_seq(r), r.chance(0.8) ? r.pickl({0x0E, 0x11, 0x13}) : r.range(0, 255), off & 0xFFFF, tos}));
-        } else if (x < 10) { p.ops.push_back(mk(OP_RESET, 10, {mapper, -1, 0, 0, 0, 0})); }
+        } else if (x < 10) { p.ops.push_back(mk(OP_RESET, 10, {mapper, -1, r.chance(0.7) ? 0 : 1, 0, 0, 0})); }
         else if (x < 11) p.ops.push_back(mk(OP_ATTR, 5, {0, (int64_t)(r.next() >> 1), G_ICON | G_FNAME | G_HWID}));
         else if (r.chance(0.5)) { Op o = mk(OP_QLT, 5, {mapper, br, 0, rnd_seq(r), 0x0E, r.range(0, 2000), 0}); Fault f; f.kind = r.chance(0.5) ? F_DUP : F_DELAY; f.a = r.range(1, 20); o.f.push_back(f); p.ops.push_back(o); }
         else { // another station asks as well (its own sequence numbers), while the mapper's session is open
@@ -385,9 +387,21 @@ static Plan gen_C08(uint64_t seed, Rng &r) {
     return p;
 }
 
+static void keepalive_ops(Rng &r, Plan &p, int node_count);
 static Plan gen_C09(uint64_t seed, Rng &r) {
     Plan p = base_plan("C09", seed, r);
     p.twin = true;
+    if (r.chance(0.12)) { // a long-lived session of the documented flow before the Reset (sessions expiring one by one), then a new session
+        p.family = 1;
+        NodeCfg n = rnd_node(r, {GLUE_DARWIN});
+        p.nodes.push_back(n);
+        keepalive_ops(r, p, 1);
+        p.ops.push_back(mk(OP_RESET, (uint32_t)r.range(100, 4000), {(int64_t)r.below(3), -1, 0, r.chance(0.3) ? 1 : 0, 0, 0}));
+        int nd = (int)r.range(1, 4);
+        for (int i = 0; i < nd; i++) { Op o = p.ops[(size_t)r.below(3)]; if (o.kind != OP_DISCOVER) continue; o.dt = (uint32_t)r.range(1200, 5000); if (r.chance(0.5)) o.a[4] = rnd_seq(r); p.ops.push_back(o); }
+        p.tail_ms = (uint32_t)r.range(2000, 6000);
+        return p;
+    }
     int nn = 1 + (int)r.below(2);
     for (int i = 0; i < nn; i++) p.nodes.push_back(rnd_node(r, {GLUE_BARE, GLUE_BARE, GLUE_LEGACY, GLUE_DARWIN}));
     Mix m;
@@ -678,6 +692,16 @@ static Plan gen_C16(uint64_t seed, Rng &r) {
     if (r.chance(0.2)) nkeys = (int)r.range(1, 17);
     int nops = (int)r.range(5, 200);
     double addw = r.chance(0.5) ? 0.5 : 0.3;
+    if (r.chance(0.3)) { // structured prefix: a (nearly) full table whose sessions are (nearly) all complete
+        p.family = 1;
+        int fill = (int)r.pickl({15, 16, 16, 16, 17});
+        for (int k = 0; k < fill; k++) p.ops.push_back(mk(OP_A_TADD, 0, {k, rnd_seq(r)}));
+        int skip = r.chance(0.6) ? -1 : (int)r.below(16);
+        for (int k = 0; k < 16; k++) if (k != skip) p.ops.push_back(mk(OP_A_TCOMPL, 0, {k, 1}));
+        if (r.chance(0.5)) p.ops.push_back(mk(OP_A_ADV, 0, {r.range(0, 30000)}));
+        nops = (int)r.range(3, 40);
+        if (nkeys < 20) nkeys = 24;
+    }
     for (int i = 0; i < nops; i++) {
         double x = (double)r.below(1000) / 1000.0;
         int64_t k = (int64_t)r.below((uint64_t)nkeys);
@@ -697,15 +721,17 @@ static Plan gen_C17(uint64_t seed, Rng &r) {
     p.isolate = true;
     p.nodes.push_back(rnd_node(r, {GLUE_BARE, GLUE_LEGACY, GLUE_DARWIN}));
     p.nodes.push_back(rnd_node(r, {GLUE_BARE, GLUE_LEGACY, GLUE_DARWIN}));
+    if (r.chance(0.3)) p.nodes.push_back(rnd_node(r, {GLUE_BARE, GLUE_LEGACY}));
+    if (r.chance(0.1)) p.nodes.push_back(rnd_node(r, {GLUE_BARE}));
     Mix m;
     m.raw = 1; m.stray = 2; m.stall = 0; m.flood = 2; m.fetch = 2;
     int nops = (int)r.range(2, 50);
     for (int i = 0; i < nops; i++) {
         Plan one = p;
-        int node = (int)r.below(2);
+        int node = (int)r.below(p.nodes.size());
         // build the op against a single-node view so that every argument refers to `node`
         one.nodes = {p.nodes[node]};
-        Op o = rnd_lan_op(r, one, m, 4, node == 0 ? 0 : 1);
+        Op o = rnd_lan_op(r, one, m, 4, node % 4);
         // retarget node arguments
         switch (o.kind) {
         case OP_EMIT: case OP_QUERY: case OP_QLT: case OP_FETCH: case OP_CHARGE: case OP_FLOOD: o.a[2] = node; break;
@@ -732,6 +758,7 @@ static Plan gen_C19(uint64_t seed, Rng &r, const std::string &tier) {
     NodeCfg n = rnd_node(r, {GLUE_BARE, GLUE_LEGACY, GLUE_DARWIN});
     p.nodes.push_back(n);
     p.family = (int)r.below(3);
+    if (p.family != 0 && r.chance(0.35)) { int extra = (int)r.range(1, 3); for (int i = 0; i < extra; i++) p.nodes.push_back(rnd_node(r, {GLUE_BARE, GLUE_LEGACY})); } // several interface contexts in one process
     int mapper = 0;
     p.ops.push_back(mk(OP_DISCOVER, 5, {mapper, -1, 0, rnd_gen(r), rnd_seq(r), 0, 0, 0}));
     if (p.family == 0) { // flood of pairwise distinct sources, no Query
